@@ -84,7 +84,7 @@ const excludeEmptySecretBearer = false // repaired in /repo (fix: commit 0022b29
 const exclEmptySecret = "http/bearer-token-signed-with-empty-key-while-shared-secret-is-empty"
 
 const ruleHTTP = "rapid: 1-3 users (admin or privilege table over {/,/api,/api/a,/api/a/b,/api/b,/api/write,/api/ping,/api/who,/api/preview...,/database} + per-database grants) and 0-2 subscription tokens " +
-	"x all HTTP methods x raw request targets under /kapacitor/v1, /kapacitor/v1preview, / (clean, or with '.', '..', '//', trailing '/', %2e, %2F) incl. /write with generated db " +
+	"x all HTTP methods x raw request targets under /kapacitor/v1, /kapacitor/v1preview, / (clean, or with '.', '..', '//', trailing '/', %2e, %2F; one request in six is grant-directed: a single user whose grant on a deep resource disagrees with an ancestor's, and a target that reaches the resource only after percent-decoding and cleaning) incl. /write with generated db " +
 	"x basic / query / bearer(JWT) / subscription-token credentials, valid, invalid or missing, sent through http.ReadRequest into the real httpd.Handler (auth enabled, fake auth.Interface); " +
 	"safety direction only; non-trivial = a non-redirect answer to a request with valid non-admin credentials whose reference decision is taken by an actual grant (allow or deny), or a write that reached the database check"
 
@@ -664,6 +664,35 @@ func genHTTP(r *kit.Rec) func(*rapid.T) HTTPCase {
 				p += "/"
 			}
 			c.Path = p
+			if rapid.IntRange(0, 5).Draw(t, "directed") == 0 {
+				// grant-directed: a single non-admin user whose grant on a resource of depth >= 2
+				// disagrees with the grant on an ancestor, and a request target that reaches that
+				// resource only after percent-decoding / cleaning - the decision must be made on
+				// the decoded, cleaned path
+				deep := rapid.SampledFrom([]string{"/api/a", "/api/a", "/api/a/b", "/api/b"}).Draw(t, "deep")
+				anc := rapid.SampledFrom([]string{"/", "/api", "/api"}).Draw(t, "anc")
+				pair := rapid.SampledFrom([][2][]string{{{"none"}, {"all"}}, {{"all"}, {"none"}}, {{"read"}, {"all"}}, {{"all"}, {"read"}}, {{"none"}, {"read", "write", "delete"}}, {{"write"}, {"read"}}}).Draw(t, "pair")
+				c.Users = []HUser{{Name: "u1", Pass: "pw1", API: []Grant{{Path: deep, Privs: pair[0]}, {Path: anc, Privs: pair[1]}}}}
+				rest := strings.TrimPrefix(deep, "/api") // "/a", "/a/b", "/b"
+				segs := strings.Split(strings.TrimPrefix(rest, "/"), "/")
+				enc := func(seg string) string {
+					switch rapid.IntRange(0, 3).Draw(t, "enc") {
+					case 0:
+						return fmt.Sprintf("%%%02x", seg[0]) + seg[1:]
+					case 1:
+						return seg + "/%2e%2e/" + seg
+					case 2:
+						return "x%2F..%2F" + seg
+					}
+					return seg
+				}
+				var parts []string
+				for _, sg := range segs {
+					parts = append(parts, enc(sg))
+				}
+				joiner := rapid.SampledFrom([]string{"/", "/", "%2F"}).Draw(t, "joiner")
+				c.Path = basePath + "/" + strings.Join(parts, joiner) + rapid.SampledFrom([]string{"", "", "/", "/c", "%2Fc"}).Draw(t, "tail")
+			}
 			if c.Method == "POST" || c.Method == "PATCH" || c.Method == "PUT" {
 				c.Body = rapid.SampledFrom([]string{"", "{}", `{"level":"INFO"}`}).Draw(t, "jbody")
 			}
